@@ -84,6 +84,55 @@ async def scenario(limit, plan1, plan2, delay_s):
     return None
 
 
+async def start_while_winding_down(cleanup_yields, n_starts):
+    """start(); cancel(); start() again while the cancelled run logic is still in its clean-up (it awaits there): the
+    run logic must never be active twice, and stop() must leave nothing running - the first task included."""
+    from frequenz.sdk.actor import Actor
+
+    class Slow(Actor):
+        def __init__(self):
+            super().__init__(name="slow")
+            self.active = 0
+            self.max_active = 0
+            self.entered = 0
+
+        async def _run(self):
+            self.active += 1
+            self.entered += 1
+            self.max_active = max(self.max_active, self.active)
+            try:
+                await asyncio.Event().wait()
+            except asyncio.CancelledError:
+                for _ in range(cleanup_yields):          # clean-up that takes a few loop iterations
+                    await asyncio.sleep(0)
+                raise
+            finally:
+                self.active -= 1
+
+    a = Slow()
+    a.start()
+    for _ in range(3):
+        await asyncio.sleep(0)
+    first_tasks = set(a.tasks)
+    a.cancel()
+    await asyncio.sleep(0)          # the CancelledError is delivered; the run logic is now in its clean-up
+    for _ in range(n_starts):
+        a.start()
+        await asyncio.sleep(0)
+    for _ in range(cleanup_yields + 10):
+        await asyncio.sleep(0)
+    worst = a.max_active
+    await a.stop()
+    for _ in range(5):
+        await asyncio.sleep(0)
+    if worst > 1:
+        return (f"{worst} invocations of the run logic were active at the same time (start() called {n_starts}x while the "
+                f"cancelled invocation was still cleaning up for {cleanup_yields} loop iterations)")
+    if any(not t.done() for t in first_tasks) or a.active:
+        return "after stop() a task spawned by the first start() is still running"
+    return None
+
+
 def run(req):
     logging.disable(logging.CRITICAL)
     t0 = time.time()
@@ -105,11 +154,22 @@ def run(req):
             failure = (f, {"restart_limit": lim, "first_start": list(p1), "second_start": None if p2 is None else list(p2),
                            "restart_delay_s": d})
             break
+    for cy, ns in itertools.product((1, 3, 8), (1, 2)):
+        if failure:
+            break
+        evaluations += 1
+        try:
+            f = asyncio.run(start_while_winding_down(cy, ns))
+        except Exception as e:  # pylint: disable=broad-except
+            f = f"scenario raised {type(e).__name__}: {e}"
+        if f:
+            failure = (f, {"schedule": "start, cancel, start again during clean-up", "cleanup_loop_iterations": cy, "starts": ns})
     logging.disable(logging.NOTSET)
     out = {"status": "failed" if failure else "ok", "evaluations": evaluations, "distinct": evaluations, "known": {},
            "samples": samples, "wall_s": round(time.time() - t0, 1), "exhaustive": failure is None,
            "rule": "restart limit in {None, 0, 1, 2} x outcome plans of the run logic (up to 3 failures, then return) x an "
-                   "optional second start() with its own plan x restart delay 0 / 50 ms (a subclass attribute); all distinct"}
+                   "optional second start() with its own plan x restart delay 0 / 50 ms (a subclass attribute); plus start / "
+                   "cancel / start again (1-2x) while the cancelled run logic cleans up for 1/3/8 loop iterations; all distinct"}
     if failure:
         out["failure"] = {"clause": "restart policy on the real Actor", "detail": failure[0]}
         out["inputs"] = failure[1]
